@@ -80,8 +80,8 @@ Print Assumptions C02_walk_sees_the_list.
 
 (** Swap, general branch: proved under the two preconditions the code does not test; the statement without them is false
     of the model and of the code (C02_swap_with_first_chunk_refuted; replayed on the binary by the hook).  The neighbour
-    branches (Remove + AddBefore) follow below; all branches together: C02_swap_keeps_every_chunk.  PARTIAL: SwapLines
-    (two fuel-bounded loops over these operations) is covered by the correspondence only. *)
+    branches (Remove + AddBefore) follow below; all branches together: C02_swap_keeps_every_chunk.  SwapLines: at the end of this file,
+    under an executable hypothesis. *)
 Theorem C02_swap_far_partial : forall s l a b,
   repr s l -> In a l -> In b l -> a <> b -> prv s a <> b -> prv s b <> a ->
   prv s a <> 0 -> prv (remove s a) b <> 0 ->
@@ -141,3 +141,21 @@ Example C02_list_from_empty_example :
   oks2 [] [NewAfter 1 0 false 0; NewBefore 2 0 true 1; NewBefore 3 2 false 0; NewAfter 4 1 false 0; MoveAfter 1 2; Delete 4]
   /\ fold_left abs_op2 [NewAfter 1 0 false 0; NewBefore 2 0 true 1; NewBefore 3 2 false 0; NewAfter 4 1 false 0; MoveAfter 1 2; Delete 4] [] = [3; 2; 1].
 Proof. exact list_from_empty_example. Qed.
+
+(** Chunk::SwapLines.  The hypothesis is executable: swap_lines_guard evaluates, along the very states the two loops go through, what they and
+    the final Swap rely on (the chunk being moved is not the anchor it is moved next to; the final Swap inside its contract).  It is true for
+    two non-empty lines in either order (Example) and false in the refuted run, where a chunk is lost - on the real code too. *)
+Theorem C02_swap_lines_keeps_every_chunk : forall fuel s l a b, repr s l -> In a l -> In b l -> swap_lines_guard fuel s a b = true ->
+  exists l', repr (swap_lines fuel s a b) l' /\ Permutation l l'.
+Proof. exact swap_lines_permutes. Qed.
+Print Assumptions C02_swap_lines_keeps_every_chunk.
+
+Example C02_swap_lines_example :
+  swap_lines_guard 6 two_lines 1 3 = true /\ swap_lines_guard 6 two_lines 3 1 = true /\
+  cl_observe 6 (swap_lines 6 two_lines 1 3) = ([(3, 0); (4, 1); (1, 0); (2, 3)], [2; 1; 4; 3]).
+Proof. exact swap_lines_example. Qed.
+
+Theorem C02_swap_lines_blank_line_refuted :
+  swap_lines_guard 5 blank_second 1 3 = false /\ to_list 5 (swap_lines 5 blank_second 1 3) = [1; 2].
+Proof. exact swap_lines_blank_line_refuted. Qed.
+Print Assumptions C02_swap_lines_blank_line_refuted.
